@@ -209,6 +209,15 @@ pub fn check(c: &Case) -> Outcome {
                 Ran::Done(R::Err(..)) if !plus_ok => {}
                 o => return fail(format!("`t + d` with t = {} d = {} ns should be the instant {} ns, observed {}", t.text(), d_ns, want, o.show())),
             }
+            // `d + t` is `t + d`: the same instant at the same offset, so every accessor and the rendering agree
+            if plus_ok {
+                for src in ["(d + t).getHours() == (t + d).getHours() && (d + t).getDate() == (t + d).getDate() && (d + t).getDayOfWeek() == (t + d).getDayOfWeek()", "string(d + t) == string(t + d)", "(d + t).getFullYear() == (t + d).getFullYear() && (d + t).getMinutes() == (t + d).getMinutes()"] {
+                    match sut::run_src(src, &vars) {
+                        Ran::Done(R::Val(V::Bool(true))) => {}
+                        o => return fail(format!("`{src}` with t = {} d = {} ns: expected true, observed {}", t.text(), d_ns, o.show())),
+                    }
+                }
+            }
             // an unparenthesised chain: every step from the left is representable, so the chain is
             {
                 let steps_ok = (1..=3).all(|k| in_years(t.total_ns() + k * *d_ns as i128));
